@@ -32,17 +32,32 @@ def adm_argv(fn_name, options, ledger):
 def as_program(fn, options, ledger):
     """A callable taking (options) like `fn`, which runs the same command through the program's
     main() with the equivalent command line; a non-zero exit status is raised as ExitStatus."""
+    import contextlib
+    import io
     import adm_ledger
     import adm_sgx
+    from .core import HarnessError
     argv = adm_argv(fn.__name__, options, ledger)
     mod = adm_ledger if ledger else adm_sgx
+    if not callable(getattr(mod, "main", None)):
+        raise HarnessError("%s has no main()" % mod.__name__)
 
     def run(_):
         saved = sys.argv
         sys.argv = argv
+        err = io.StringIO()
         try:
-            mod.main()
+            with contextlib.redirect_stderr(err):
+                mod.main()
         except SystemExit as e:
+            if e.code == 2 and "usage:" in err.getvalue() and \
+                    not any(isinstance(x, str) and x.startswith("-") and len(x) > 2
+                            for x in argv[2:]):
+                # the argument parser turned the command line down: the harness wrote one the
+                # program does not understand (an option value that looks like an option is
+                # the operator's doing and counts as a refusal)
+                raise HarnessError("command line not understood by %s: %r: %s" % (
+                    mod.__name__, argv, err.getvalue()[-300:]))
             if e.code not in (0, None):
                 raise ExitStatus("exit status %r" % (e.code,))
         finally:
